@@ -252,3 +252,24 @@ func HarnessC11ZeroLenAF() {
 	vassertK("C11.af0.rt", "F7", true, err2 == nil && n2 == 188 && vBytesEq(sink2.buf, x))
 	vreach("C11.af0.end")
 }
+
+// HarnessC11RoundTripLater: a packet obtained from NextPacket is still re-emitted byte-identically after the next
+// packet has been read (nothing it refers to may alias the demuxer's read buffer)
+func HarnessC11RoundTripLater(flags int) {
+	m1 := c11Model(3, flags, 0)
+	m2 := c11Model(3, flags, 0)
+	x1, x2 := refEncodePacket(m1), refEncodePacket(m2)
+	dmx := NewDemuxer(vCtx{}, newVReader(append(append([]byte{}, x1...), x2...)), DemuxerOptPacketSize(188))
+	p1, err := dmx.NextPacket()
+	vassert("C11.later.read1", err == nil)
+	p2, err := dmx.NextPacket()
+	vassert("C11.later.read2", err == nil)
+	for k, pk := range []*Packet{p1, p2} {
+		sink := newVSink()
+		mx := NewMuxer(vCtx{}, sink)
+		n, err := mx.WritePacket(pk)
+		vassert("C11.later.write", err == nil && n == 188)
+		vassert("C11.later.bytes", vBytesEq(sink.buf, [][]byte{x1, x2}[k]))
+	}
+	vreach("C11.later.end")
+}
